@@ -37,6 +37,7 @@ class World(object):
   def __init__(self, variant):
     self.variant = variant
     net = NETS[variant % len(NETS)]
+    self.net_prefix = net
     ip = lambda h: "%s.%d" % (net, h)       # noqa: E731
     self.srv = {"s1": ip(1), "s2": ip(2)}
     self.smac = {"s1": "00:00:00:00:aa:01", "s2": "00:00:00:00:aa:02"}
@@ -276,6 +277,7 @@ class Adapter(object):
     c = self.client
     lst = any(getattr(h, "__self__", None) is c for h in self._packetin_handlers()) if c is not None else False
     evs, self.evs = self.evs, []
+    self.last_emits = list(r["emits"])
     return {"st": _state(c) if c is not None else "GONE", "lst": lst, "nfl": self._nflows(),
             "of": self._classify_of(r["c2s"], handshake), "tx": self._decode_tx(r["emits"]), "evs": evs,
             "fault": "-" if not faults else "+".join(faults), "fired": fired}
@@ -441,6 +443,84 @@ class Adapter(object):
     else:
       raise Machinery("unknown junk kind %r" % k)
     return port, self._reply_frame(typ, xid, s, yi, "me", opts=spec, **kw)
+
+  # ------------------------------------------------------------------ second scenario: the real DHCPD as server
+  SERVER_DPID = 9
+
+  def enable_e2e(self):
+    """A real DHCPD (pox/proto/dhcpd.py) serves the client through a second real switch whose port 1 is wired to
+    the client's port.  The offers it can make are o1 / o3 of the spec (its address, the two pool addresses, the
+    options it is configured with and the client asks for)."""
+    import pox.proto.dhcpd as dhcpdmod
+    from harness import poxenv
+    poxenv.install_clock(dhcpdmod)
+    if self.net is None:
+      self._boot(0)
+    w = self.w
+    ip = lambda h: "%s.%d" % (w.net_prefix, h)       # noqa: E731
+    del dhcpdmod.DHCPD._servers[:]
+    pool = dhcpdmod.SimpleAddressPool(network=w.net_prefix + ".0/24", first=50, count=2)
+    self.dhcpd = dhcpdmod.DHCPD(ip_address=w.srv["s1"], router_address=ip(254), dns_address="8.8.8.8", pool=pool,
+                                dpid=self.SERVER_DPID)
+    opts = ("255.255.255.0", [ip(254)], ["8.8.8.8"], 3600)
+    w.offers = {"o1": ("s1", "a1") + opts, "o3": ("s1", "a2") + opts, "o2": w.offers["o2"]}
+    self.srv_chan = self.net.add_switch(self.SERVER_DPID)
+    self.net.connect_chan(self.srv_chan)
+    self.net.take()
+    self.inflight = []
+
+  def e2e_forward(self):
+    """what the client's switch emitted on port 1 reaches the server's switch; the server's answers are in flight"""
+    ch = self.srv_chan
+    for port, frame in self.last_emits:
+      if port == 1:
+        ch.sw.rx_packet(xn.ethernet(raw=frame), 1)
+        self.net._pump()
+    self.last_emits = []
+    got, ch.emits = ch.emits, []
+    self.inflight.extend(f for p, f in got if p == 1)
+    # the server's control traffic is not the client's: forget what the tap of the client's channel saw (nothing)
+    return len(got)
+
+  def e2e_classify(self, frame):
+    """spec action and arguments for a server frame about to reach the client"""
+    d = xn.parse_dhcp_frame(frame)
+    typ = xn.MT_NAME.get(d["options"].get(53, b"\0")[0], "?")
+    xid = d["xid"]
+    if self.disc_xids and xid == self.disc_xids[-1]:
+      x = "D"
+    elif len(self.disc_xids) > 1 and xid == self.disc_xids[-2]:
+      x = "oldD"
+    elif self.req_xids and xid == self.req_xids[-1]:
+      x = "R"
+    elif len(self.req_xids) > 1 and xid == self.req_xids[-2]:
+      x = "oldR"
+    else:
+      x = "bogus"          # the xid of a message before the last two: as dead as one never used
+    ch = "me" if d["chaddr"][:6] == rb.mac(self._expected_mac()) else "other"
+    yi = xn.ip_str(d["yiaddr"])
+    if typ == "OFFER":
+      srv = xn.ip_str(struct.unpack("!I", d["options"].get(54, b"\0\0\0\0"))[0])
+      o = None
+      for oid, spec in self.w.offers.items():
+        if self.w.srv[spec[0]] == srv and self.w.addr[spec[1]] == yi:
+          o = oid
+      if o is None:
+        raise Machinery("the server offered %s from %s: not an offer of the model" % (yi, srv))
+      return "RxOffer", dict(x=x, o=o, ch=ch)
+    if typ == "ACK":
+      req = getattr(self.client, "requested", None)
+      ya = "req" if (req is None or str(req.address) == yi) else "other"
+      return "RxAck", dict(x=x, ch=ch, ya=ya)
+    if typ == "NAK":
+      return "RxNak", dict(x=x, ch=ch)
+    raise Machinery("the server sent a %s" % typ)
+
+  def e2e_deliver(self, frame, dec="defer", pick=0):
+    self.dec, self.pick = dec, pick
+    self.net.inject(1, frame)
+    self.dec, self.pick = "defer", 0
+    return self._obs()
 
   # ------------------------------------------------------------------ replay hooks
   def accept_alt(self, obs, step):
